@@ -27,6 +27,9 @@ static sqfs_u8 *decode(const char *filename, size_t line_num,
 	}
 
 	if (value[0] == '0' && (value[1] == 'x' || value[1] == 'X')) {
+		if ((*size) % 2 != 0)
+			goto fail_encode;
+
 		*size = ((*size) - 2) / 2;
 
 		decoded = calloc(1, (*size) + 1);
